@@ -323,6 +323,26 @@ def saved_game_same_map(F, S):
     return out
 
 
+def saved_game_skip_is_relative(F, S):
+    """R-ORDER: the saved-game header is skipped *from where the stream stands*: the only repositioning between the entry of
+    ReadSavedGame and ReadMapBeginning is SeekForward(0x1E025) (or that many bytes read and dropped). An absolute Seek reads
+    the map from a fixed offset of the underlying stream, wherever the caller had positioned it."""
+    from ..through import find_calls
+    fn = F.fn(M + "::ReadSavedGame", nparams=1, pred=lambda f: "Reader &)" in f.key)
+    sk = find_calls(F, fn, lambda nd: nd["k"] == "CXXMemberCallExpr" and nd.get("fname") in ("Seek", "SeekForward", "SeekBackward")
+                    and (nd.get("mrec") or "").startswith("OP2Utility::Stream::"))
+    inst = M + "::ReadSavedGame#skip-relative"
+    req = "the saved-game header is skipped relative to the current position: SeekForward(0x1E025), no absolute Seek"
+    bad_ = [s_ for s_ in sk if s_.node.get("fname") != "SeekForward"]
+    fw = [s_ for s_ in sk if s_.node.get("fname") == "SeekForward"]
+    if not sk:
+        raise AnalysisBroken("ReadSavedGame: no stream repositioning found (shape not recognised)")
+    if not bad_ and len(fw) == 1 and fw[0].args() == [("const", 0x1E025)]:
+        return [ok("R-ORDER", inst, fn.loc(fw[0].outer_id()), fn.qn, req, "SeekForward(0x1E025)")]
+    what = ", ".join("%s(%s)" % (s_.node.get("fname"), ", ".join(fmt_term(a) for a in s_.args())) for s_ in sk)
+    return [bad("R-ORDER", inst, fn.loc(sk[0].outer_id()), fn.qn, req, "found %s" % what)]
+
+
 def check(F, run, tier):
     S = Summaries(F)
     from ..rules_archive import discarded_exception_obligations
@@ -373,6 +393,11 @@ def check(F, run, tier):
     run.add(version_tags(F, S))
     run.add(tileset_sources(F, S))
     run.add(saved_game_same_map(F, S))
+    run.add(saved_game_skip_is_relative(F, S))
+    # divisors that come from the file are refused or proved non-zero before the division (a zero tile-group width, say)
+    from . import imgcommon as _ic
+    _od, _nd = _ic.divisors_nonzero(F, S, ["/Map/"])
+    run.add(_od)
     obs, n = ic.no_partial_reads(F, S, ["/Map/MapReader.cpp"])
     run.add(obs)
     run.floor("read-sites", n, 25)
